@@ -24,6 +24,21 @@ pub use remote::{
 };
 pub(crate) use validation::validate_config_semantics;
 
+/// Verification hooks: public aliases of crate-private configuration internals so that the
+/// external correspondence harness can call the real functions in-process.
+#[cfg(feature = "verif")]
+pub mod verif_exports {
+    pub use super::extends::{ExtendsResolver, MAX_EXTENDS_DEPTH};
+    pub use super::merge::{
+        has_any_reset_markers, has_reset_marker, is_reset_element, merge_arrays,
+        merge_toml_values, strip_reset_markers, validate_reset_positions,
+    };
+    pub use super::remote::{
+        HttpClient, compute_content_hash, fetch_remote_config_with_client,
+    };
+    pub use super::validation::validate_config_semantics;
+}
+
 #[cfg(test)]
 mod tests {
     use super::*;
